@@ -3,7 +3,7 @@
    Executable Gallina only. *)
 From Coq Require Import ZArith List Bool.
 Import ListNotations.
-From MemSafe Require Import Model Gen_Used Gen_Helpers ModelMem ModelWrites ModelDiv Spec ModelExec.
+From MemSafe Require Import Model Gen_Used Gen_Helpers ModelMem ModelWrites ModelDiv Spec ModelExec ModelScope.
 Open Scope Z_scope.
 
 Definition err_code (e : err) : Z :=
@@ -29,9 +29,10 @@ Definition canon (l : list stmt) : list Z := flat_map canon_s l.
 
 Definition b2z (b : bool) : Z := if b then 1 else 0.
 
-(* [wf_b p ; 0 ; canon (insert_frees p)]   or   [wf_b p ; - err_code] *)
+(* [hyps ; 0 ; canon (insert_frees p)]   or   [hyps ; - err_code]
+   hyps = wf_b p + 2 * ascoped_b p + 4 * (forallb rhs_ok_s p): the hypotheses of the C08 Free theorems *)
 Definition mem_case (p : list stmt) : list Z :=
-  b2z (wf_b p) ::
+  (b2z (wf_b p) + 2 * b2z (ascoped_b p) + 4 * b2z (forallb rhs_ok_s p)) ::
   match insert_frees p with
   | Ok q => 0 :: canon q
   | Err e => [- err_code e]
